@@ -1843,6 +1843,14 @@ fn forward_device_data(
         len
     );
 
+    // update the state of shared subscription. This has to happen for everything
+    // that was pushed above, also when the buffer turns out to be full
+    if let Some(share) = shared_group {
+        share.update_next_client();
+        // update the shared cursor
+        share.cursor = request.cursor;
+    }
+
     if len >= MAX_CHANNEL_CAPACITY - 1 {
         debug!("Outgoing channel reached its capacity");
         outgoing.push_notification(Notification::Unschedule);
@@ -1851,13 +1859,6 @@ fn forward_device_data(
     }
 
     outgoing.handle.try_send(()).ok();
-
-    // update the state of shared subscription
-    if let Some(share) = shared_group {
-        share.update_next_client();
-        // update the shared cursor
-        share.cursor = request.cursor;
-    }
 
     if caughtup {
         ConsumeStatus::FilterCaughtup
